@@ -160,6 +160,9 @@ func VTMStep(K int) {
 		zzv.Assert("C10.status.state", st.TargetState == w.state)
 		if p, kept := pre[h]; kept {
 			zzv.Cover("tm.kept")
+			// C14: the load a kept target contributes (mean of its window, last total) and the window
+			// itself (it lives in the status object) survive every update, a transfer begin included
+			zzv.Assert("C14.kept.estimate", zzv.And(st == p.obj, st.Series == p.snap.Series, st.TotalSeries == p.snap.TotalSeries))
 			zzv.Assert("C10.kept.sameobject", st == p.obj)
 			zzv.Assert("C10.kept.stats", zzv.And(st.Series == p.snap.Series, st.TotalSeries == p.snap.TotalSeries, st.Health == p.snap.Health, st.LastError == p.snap.LastError))
 			restart := zzv.And(p.state == target.StateNormal, w.state == target.StateInTransfer)
